@@ -90,6 +90,9 @@ def inot (v : Int) : Int := -v - 1
 /-- `EncodeVarintDescending` -/
 def varintDesc (v : Int) : Bytes := varintAsc (inot v)
 
+/-- two's-complement wrap-around of `int64` arithmetic -/
+def wrap64 (x : Int) : Int := (x + 2 ^ 63) % 2 ^ 64 - 2 ^ 63
+
 /-- `DecodeUvarintAscending`: value and remaining bytes -/
 def decUvarintAsc : Bytes → Option (Nat × Bytes)
   | [] => none
@@ -124,9 +127,10 @@ def decVarintAsc : Bytes → Option (Int × Bytes)
       let l := (-length).toNat
       if b.length < l then none
       else
-        -- v = fold of ^t, then ^v
+        -- v = fold of ^t, then ^v — in `int64`: eight payload bytes with a clear top bit (never produced by the
+        -- encoder) wrap around
         let m := beVal ((b.take l).map (fun x => 255 - x))
-        some (inot (m : Int), b.drop l)
+        some (wrap64 (inot (m : Int)), b.drop l)
     else
       match decUvarintAsc (t :: b) with
       | none => none
